@@ -144,7 +144,7 @@ Section WithTables.
   Definition le (a b : kind) : res bool :=
     match equalize (k_feats a) (k_feats b) (version a) (version b) with
     | None => KeyErr
-    | Some (fa, fb, v) => Ok (subset (N.land fa (valid v)) (N.land fb (valid v)))
+    | Some (fa, fb, v) => let vv := valid v in Ok (subset (N.land fa vv) (N.land fb vv))
     end.
 
   (* __le__ also mutates: equalize_versions returns the operand's own set object when no upgrade step ran on it
@@ -154,8 +154,9 @@ Section WithTables.
     match equalize (k_feats a) (k_feats b) (version a) (version b) with
     | None => KeyErr
     | Some (fa, fb, v) =>
-        let fa' := N.land fa (valid v) in
-        let fb' := N.land fb (valid v) in
+        let vv := valid v in
+        let fa' := N.land fa vv in
+        let fb' := N.land fb vv in
         Ok (subset fa' fb',
             (if (version a <? version b)%N then k_feats a else fa'),
             (if (version b <? version a)%N then k_feats b else fb'))
